@@ -30,13 +30,24 @@ Readings adopted:
   * "message boundary": nothing unread in either direction and the server waits for the first byte of a request.
   * join(timeout=5) in close() may return before the reaper has finished: the model lets close() proceed either way.
 
-Findings on the unrepaired source (each replayed against the real code, keys as reported by ctx.violation;
-coq/refuted/R_C32.v has the model-level witnesses):
-  max-idle-zero-keeps-one                              max_idle=0: evict finds nothing, the append still happens (idle_count == 1)
-  dirty-reuse-after-unary-callback-raise               on_log raises during a unary call: response left unread, worker pooled
-  dirty-reuse-after-stream-close-callback-raise        tick interrupted, then close()'s drain interrupted: _closed is True, output not drained
-  dirty-reuse-after-second-stream-init-callback-raise  second stream of a borrow: init interrupted, _last_stream_session is the stale closed one
-Candidate repairs: fixes/C32-max-idle-zero.diff, fixes/C32-interrupted-call-taints-worker.diff (the model's cfg_fixed).
+Findings (each replayed against the real code, keys as reported by ctx.violation; coq/refuted/R_C32.v has the
+model-level witnesses):
+  repaired in /repo (746cb3e, b37b74b):
+    max-idle-zero-keeps-one                              max_idle=0: evict finds nothing, the append still happens (idle_count == 1)
+    dirty-reuse-after-unary-callback-raise               on_log raises during a unary call: response left unread, worker pooled
+    dirty-reuse-after-stream-close-callback-raise        tick interrupted, then close()'s drain interrupted: _closed is True, output not drained
+    dirty-reuse-after-second-stream-init-callback-raise  second stream of a borrow: init interrupted, _last_stream_session is the stale closed one
+    dirty-reuse-after-cancel-drain-callback-raise        (seeded only) cancel()'s drain swallowing an exception no except clause names
+  pending (HEAD 9cd32f4), candidate repair fixes/C32-drained-only-at-end-of-stream.diff (the model's cfg_fixed):
+    dirty-reuse-after-cancel-drain-callback-raise-suppressed-class
+    dirty-reuse-after-stream-close-callback-raise-suppressed-class
+        the drain loop of StreamSession.cancel() / .close() runs under suppress(StopIteration, RpcError, pa.ArrowInvalid,
+        OSError) and `_drained = True` follows unconditionally: an on_log callback raising RpcError, OSError or
+        pa.ArrowInvalid while the drain delivers a log batch (on_cancel hook logs; the unread rest of an interrupted tick)
+        ends the drain silently with the end-of-stream marker unread, and the pool reuses the worker.
+Exception classes of the callback: V ValueError, T RuntimeError (caught nowhere: XPlain), O plain OSError, R RpcError,
+A pa.ArrowInvalid.  Not generated: a callback raising StopIteration (the repaired drain would take it for the end of the
+stream) and BaseExceptions such as KeyboardInterrupt (they pass every handler involved and leave the marks set).
 """
 from __future__ import annotations
 
@@ -540,7 +551,7 @@ def run(ctx: Any) -> None:
                 else "cancel-drain-callback-raise" if any(o[0] == "X" for o in ops)
                 else "second-stream-init-callback-raise" if sum(1 for o in ops if o[0] == "O") > 1
                 else "stream-close-callback-raise"
-            )
+            ) + ("-suppressed-class" if any(not isinstance(e, int) and e[1] in "ORA" for e in ra) else "")
             ctx.violation(f"dirty-reuse-after-{cause}", f"real subprocess worker reused after {last}; next borrower's call failed: {b}", replay)
         if r["idle_end"] > mi:
             ctx.violation("idle-exceeds-max-idle", f"idle_count {r['idle_end']} > {mi}", replay)
